@@ -66,6 +66,11 @@ Theorem C08_model_is_source_completion :
 Proof. exact after_refines. Qed.
 Print Assumptions C08_model_is_source_completion.
 
+(* the state query reads and nothing else: no transition (open -> half-open, new trial episode) hides in State() *)
+Theorem C08_state_query_is_pure : forall self now, cb_State self now = (self, cb_state self).
+Proof. exact state_query_is_pure. Qed.
+Print Assumptions C08_state_query_is_pure.
+
 Theorem C08_times_positive_invariant :
   forall cfg s o, bop_wf o -> times_pos s -> times_pos (fst (bstep cfg s o)).
 Proof. exact times_pos_step. Qed.
